@@ -127,7 +127,39 @@ def _concrete(t: Term):
         raise _NotConcrete(show(t))
     if k == "binop" and len(t) == 4 and t[1] in ("+", "add"):
         return _concrete(t[2]) + _concrete(t[3])
+    if k == "sub":
+        base, idx = _concrete(t[1]), _concrete(t[2])
+        if isinstance(base, (list, tuple, str)) and isinstance(idx, int) and -len(base) <= idx < len(base):
+            return base[idx]
+        raise _NotConcrete(show(t))
+    if k == "var" and len(t) == 4:
+        return _concrete(t[3])
+    if k == "comp" and t[1] in ("list", "gen", "set") and len(t[3]) == 1:
+        dom, conds = t[3][0]
+        items = _concrete(dom)
+        if not isinstance(items, (list, tuple)):
+            raise _NotConcrete(show(t))
+        body = ("tuple", (t[2],) + tuple(conds))
+        if subterms(body, lambda x: x[0] == "comp"):
+            raise _NotConcrete(show(t))         # nested comprehension: whose element is meant is not decided here
+        bs = set(subterms(body, lambda x: x[0] == "bound" and isinstance(x[1], int)))
+        if len({(x[1], x[2]) for x in bs}) > 1:
+            raise _NotConcrete(show(t))
+        out = []
+        for it in items:
+            m = {b: _as_term(it) for b in bs}
+            if all(_concrete(subst(c, m)) for c in conds):
+                out.append(_concrete(subst(t[2], m)))
+        return set(out) if t[1] == "set" else out
     raise _NotConcrete(show(t))
+
+
+def _as_term(v) -> Term:
+    if isinstance(v, (list, tuple)):
+        return ("list" if isinstance(v, list) else "tuple", tuple(_as_term(x) for x in v))
+    if isinstance(v, (str, int, bool)) or v is None:
+        return ("const", v)
+    raise _NotConcrete(repr(v))
 
 
 def _looks_into_names(t: Term) -> List[str]:
@@ -284,6 +316,11 @@ def _i2(model: Model, rep: Report):
             if not isinstance(t, tuple) or not t:
                 return t
             t = tuple(_canon(x) if isinstance(x, tuple) else x for x in t)
+            if t[0] == "comp":
+                from ..listflow import unroll_comp
+                u = unroll_comp(t)
+                if u is not t:
+                    return _canon(u)          # a comprehension without filter over a display is the display of its results
             if t[0] == "call" and isinstance(t[1], tuple) and len(t[1]) == 2 and t[1][0] in ("global", "builtin") and t[1][1] in ("min", "max", "sorted", "set", "frozenset", "sum"):
                 t = ("call", t[1][1]) + t[2:]      # the builtin handed around as a value (``for bound in (min, max)``) is the builtin
             if t[0] == "call" and t[1] in ("min", "max", "sorted", "set", "frozenset", "sum") and not t[3]:
